@@ -28,6 +28,7 @@ F = fractions.Fraction
 CHAN_POOL = ['A', 'B', 'C', 'D', 'E', 'G']
 MEAS_POOL = ['m', 'n', 'o', 'w']
 POW2 = [F(1, 4), F(1, 2), F(1), F(2)]
+DECIMALS = [F(1, 10), F(3, 10), F(7, 10), F(12, 10), F(235, 100), F(5, 100), F(31, 10), F(2), F(17, 100), F(1)]
 
 
 def _q():
@@ -327,7 +328,7 @@ class Gen:
     def params(self) -> Tuple[Env, Dict[str, Any]]:
         r = self.rng
         ints = {'n%d' % i: r.choice([0, 1, 1, 2, 2, 3]) for i in range(3)}
-        times = {'d%d' % i: r.choice(POW2) for i in range(3)}
+        times = {'d%d' % i: r.choice(DECIMALS if self.stream == 'decimal' else POW2) for i in range(3)}
         volts = {'v%d' % i: F(r.randrange(-24, 25), 8) for i in range(3)}
         values: Dict[str, Any] = {}
         for k, v in ints.items():
@@ -375,6 +376,13 @@ class Gen:
         r = self.rng
         k = r.random()
         names = list(env.times)
+        if self.stream == 'decimal':
+            # durations are *given* as decimals (literal or parameter), never computed in float arithmetic
+            if k < 0.5 or not names:
+                v = r.choice(DECIMALS)
+                return fstr(v), v
+            a = r.choice(names)
+            return a, env.times[a]
         if k < 0.45 or not names:
             v = r.choice(POW2)
             return fstr(v), v
@@ -390,7 +398,7 @@ class Gen:
         r = self.rng
         s, v = self.p2time(env)
         k = r.random()
-        if k < 0.6:
+        if k < 0.6 or self.stream == 'decimal':
             return s, v
         if k < 0.8:
             s2, v2 = self.p2time(env)
@@ -435,9 +443,11 @@ class Gen:
         if k < 0.85:
             b = r.choice(names)
             return '%s*%s' % (a, b), env.ints[a] * env.ints[b]
-        if k < 0.95 and env.idx:
-            i = r.choice(list(env.idx))
-            return i, None
+        nonneg = [i for i, vals in env.idx.items() if min(vals, default=0) >= 0]
+        if k < 0.95 and nonneg:
+            # (a negative count is silently instantiated as zero repetitions while the template's duration
+            #  expression count*body becomes negative: counts are kept non-negative, see notes/C04.md)
+            return r.choice(nonneg), None
         return '2*%s' % a, 2 * env.ints[a]
 
     def loop_range(self, env: Env) -> Tuple[Tuple[str, str, str], List[int]]:
@@ -516,6 +526,12 @@ class Gen:
                 times = times[1:]     # starts later: (0, v0) is inserted by the template
             if len(times) == 1:
                 times = [('0', F(0))] + times
+        elif self.stream == 'decimal':
+            n = r.choice([2, 2, 3, 4])
+            vals = sorted(r.sample([F(k, 20) for k in range(1, 80)], n))
+            if r.random() < 0.7:
+                vals[0] = F(0)
+            times = [(fstr(v), v) for v in vals]
         else:
             n = r.choice([2, 2, 3, 3, 4, 5])
             t_s, t_v = ('0', F(0)) if r.random() < 0.75 else self.p2time(env)
